@@ -262,6 +262,9 @@ fn core_plan(prop: &str, thorough: bool, seed: u64, all_cases: &[CaseRec], tidx:
             }
         }
         "C05" | "C06" | "C07" => {
+            if tidx == 0 && prop != "C07" {
+                wide_sweep(prop, if thorough { 16384 } else { 2048 }, &mut r, &mut st);
+            }
             let n = if thorough { pairs.len() * 2 } else { pairs.len() };
             for case in cases.iter().copied() {
                 let relevant_edit = case.edits.iter().any(|e| {
